@@ -2,6 +2,7 @@ package contract
 
 import (
 	"context"
+	"errors"
 
 	"github.com/Lumerin-protocol/contracts-go/implementation"
 	"github.com/Lumerin-protocol/proxy-router/internal/repositories/contracts"
@@ -10,6 +11,8 @@ import (
 
 	hashrateContract "github.com/Lumerin-protocol/proxy-router/internal/resources/hashrate"
 )
+
+var ErrNoDestination = errors.New("contract has no destination")
 
 type ControllerSeller struct {
 	*ContractWatcherSellerV2
@@ -134,6 +137,12 @@ func (c *ControllerSeller) handleContractPurchased(ctx context.Context, event *i
 		return nil
 	}
 
+	if c.Dest() == "" {
+		// purchased without a destination (empty payload): there is nowhere to deliver to,
+		// and miners must never be pointed at a nil destination
+		return ErrNoDestination
+	}
+
 	c.ContractWatcherSellerV2.Reset()
 	err = c.StartFulfilling()
 	if err != nil {
@@ -175,6 +184,16 @@ func (c *ControllerSeller) handleCipherTextUpdated(ctx context.Context, event *i
 		}
 		c.SetTerms(terms)
 		return err
+	}
+
+	if terms.Dest() == nil {
+		// the new payload is empty: same as a payload that cannot be decrypted
+		if c.IsRunning() {
+			c.ContractWatcherSellerV2.StopFulfilling()
+			<-c.ContractWatcherSellerV2.Done()
+		}
+		c.SetTerms(terms)
+		return ErrNoDestination
 	}
 
 	//TODO: drop protocol before comparison
